@@ -47,25 +47,25 @@ PROPS = {
                 enums=['bounds'], configs_quick=['default', 'safe', 'zod'], design='7/C01'),
     'C02': dict(traits=None, part='all', count=True, theorems=['DW.C02_impl_list', 'DW.C02_delegation_same_bounds', 'DW.implPreds_shortcut', 'DW.C18_effect', 'DW.C09_fieldwise', 'DW.C06_skipped_never_mentioned', 'DW.C02_obligations', 'DW.C02_well_typed', 'DW.typeable_of_validated', 'DW.C02_type_checks', 'DW.C02_obligations_sub', 'DW.C02_preservation', 'DW.C02_never_stuck', 'DW.eval_progress', 'DW.eval_preserves', 'DW.NonVacuous.cxTotal', 'DW.matchPat_preserves', 'DW.applyFn_preserves', 'DW.NonVacuous.accepted', 'DW.NonVacuous.rawOK', 'DW.NonVacuous.implsOK'],
                 enums=None, configs_quick=['default', 'safe', 'zod', 'nightly'], diagnostics=True, design='7/C02'),
-    'C03': dict(traits=['PartialEq'], theorems=['DW.C03_validated', 'DW.C03_eq'], enums=['incomparable', 'skip', 'fieldopts', 'foreign'], configs_quick=['default', 'safe', 'zod', 'nightly'], design='7/C03'),
+    'C03': dict(traits=['PartialEq'], theorems=['DW.C03_validated', 'DW.C03_eq'], enums=['incomparable', 'skip', 'fieldopts', 'foreign', 'lacking'], configs_quick=['default', 'safe', 'zod', 'nightly'], design='7/C03'),
     'C04': dict(tables=True, traits=['PartialOrd', 'Ord'], theorems=['DW.C04_validated', 'DW.buildDiscriminants_spec', 'DW.C04_ord_refines', 'DW.C04_delegation', 'DW.C04_agree', 'DW.NonVacuous.tiOK', 'DW.NonVacuous.vals'],
                 enums=['discriminants', 'incomparable', 'skip', 'fieldopts', 'foreign'], configs_quick=['default', 'safe', 'nightly', 'zod'], design='7/C04'),
     'C05': dict(tables=True, traits=['PartialEq', 'Eq', 'PartialOrd', 'Ord', 'Hash'],
                 theorems=['DW.C05_skip_uniform', 'DW.C05_skip_hash_superset', 'DW.C05_eq_iff_pcmp', 'DW.C05_eq_symm', 'DW.C05_eq_trans',
                           'DW.C05_lt_gt', 'DW.C05_lt_trans', 'DW.C05_eq_hash', 'DW.C04_agree'],
-                enums=['skip', 'incomparable', 'invalid', 'fieldopts'], configs_quick=['default', 'safe', 'zod', 'nightly'], design='7/C05'),
+                enums=['skip', 'incomparable', 'invalid', 'fieldopts', 'lacking'], configs_quick=['default', 'safe', 'zod', 'nightly'], design='7/C05'),
     'C06': dict(tables=True, traits=None, part='all', item_filter='skip', theorems=['DW.Skip.traitSkipped_eq_covers', 'DW.C06_invisible_eq', 'DW.C06_invisible_pcmp', 'DW.C06_invisible_hash',
                                                                          'DW.C06_invisible_debug', 'DW.C06_invisible_zeroize', 'DW.C06_visible_eq',
                                                                          'DW.relevantIdx_unskippable', 'DW.C06_unskippable_clone',
                                                                          'DW.C06_unskippable_default', 'DW.C06_no_demand_eq', 'DW.C06_skipped_never_mentioned'],
-                enums=['skip', 'debug', 'zeroize', 'fieldopts'], configs_quick=['default', 'safe', 'zod'], design='7/C06'),
+                enums=['skip', 'debug', 'zeroize', 'fieldopts', 'lacking'], configs_quick=['default', 'safe', 'zod'], design='7/C06'),
     'C07': dict(traits=['PartialEq', 'PartialOrd'], theorems=['DW.C07_marked_eq', 'DW.C07_marked_pcmp', 'DW.C07_eq_eval', 'DW.C07_pcmp_eval',
                                                                'DW.C07_unaffected_eq', 'DW.C07_unaffected_pcmp', 'DW.C07_operators', 'DW.operators_of_partial_cmp'],
                 enums=['incomparable'], configs_quick=['default', 'safe', 'nightly', 'zod'], design='7/C07'),
-    'C08': dict(traits=['Hash'], theorems=['DW.C08_validated', 'DW.C08_transcript', 'DW.C08_iff'], enums=['skip', 'fieldopts', 'foreign'], configs_quick=['default', 'safe', 'zod'], design='7/C08'),
+    'C08': dict(traits=['Hash'], theorems=['DW.C08_validated', 'DW.C08_transcript', 'DW.C08_iff'], enums=['skip', 'fieldopts', 'foreign', 'lacking'], configs_quick=['default', 'safe', 'zod'], design='7/C08'),
     'C09': dict(tables=True, traits=['Clone', 'Copy'], theorems=['DW.C09_validated', 'DW.C09_fieldwise', 'DW.C09_shortcut', 'DW.C09_union', 'DW.C09_copy_marker'],
                 enums=['bounds', 'skip', 'foreign'], configs_quick=['default', 'safe', 'zod'], design='7/C09'),
-    'C10': dict(traits=['Debug'], theorems=['DW.C10_validated', 'DW.C10_transcript', 'DW.C10_names', 'DW.C10_text', 'DW.Fmt.render_struct', 'DW.Fmt.render_tuple'], enums=['debug', 'skip', 'fieldopts', 'foreign'], configs_quick=['default', 'safe', 'zod'], design='7/C10'),
+    'C10': dict(traits=['Debug'], theorems=['DW.C10_validated', 'DW.C10_transcript', 'DW.C10_names', 'DW.C10_text', 'DW.Fmt.render_struct', 'DW.Fmt.render_tuple'], enums=['debug', 'skip', 'fieldopts', 'foreign', 'lacking'], configs_quick=['default', 'safe', 'zod'], design='7/C10'),
     'C11': dict(traits=['Default'], theorems=['DW.C11_body', 'DW.C11_validated'], enums=['default', 'foreign'], configs_quick=['default', 'safe', 'zod'], design='7/C11'),
     'C12': dict(tables=True, traits=['PartialEq', 'PartialOrd', 'Ord'], theorems=['DW.C12_validated', 'DW.C12_no_ub_eq', 'DW.C12_no_ub_ord', 'DW.C12_safe_no_unsafe'],
                 enums=['incomparable', 'discriminants'], configs_quick=['default', 'safe', 'nightly', 'zod'], unsafe_scan=True, design='7/C12'),
@@ -84,7 +84,7 @@ PROPS = {
                 enums=['invalid', 'skip', 'default'], configs_quick=['default', 'zeroize', 'zod', 'nightly'], diagnostics=True, design='7/C15'),
     'C16': dict(tables=True, traits=[], outcome='message', theorems=['DW.C16_no_panic_stage2', 'DW.Input.fromInput_np', 'DW.genPanic_none', 'DW.C16_stage1_item_kept', 'DW.C16_stage1_forward', 'DW.C16_pipeline', 'DW.C16_crate_args_rejected', 'DW.C16_second_visit'],
                 enums=['invalid', 'names'], stage1=True, malformed=0.6, configs_quick=['default', 'zeroize', 'zod', 'nightly'], diagnostics=True, design='7/C16'),
-    'C17': dict(tables=True, traits=['Eq', 'Clone'], theorems=['DW.C17_eq_obligations', 'DW.C17_union', 'DW.C06_skipped_never_mentioned', 'DW.C02_obligations', 'DW.C02_well_typed'], enums=['skip', 'bounds', 'fieldopts'], configs_quick=['default', 'safe', 'zod'], design='7/C17'),
+    'C17': dict(tables=True, traits=['Eq', 'Clone'], theorems=['DW.C17_eq_obligations', 'DW.C17_union', 'DW.C06_skipped_never_mentioned', 'DW.C02_obligations', 'DW.C02_well_typed'], enums=['skip', 'bounds', 'fieldopts', 'lacking'], configs_quick=['default', 'safe', 'zod'], design='7/C17'),
     'C18': dict(traits=['Zeroize'], theorems=['DW.C18_validated', 'DW.C18_effect'], enums=['zeroize', 'skip', 'fieldopts'], configs_quick=['zeroize', 'zod'],
                 configs_thorough=['zeroize', 'zod', 'safe-zod'], design='7/C18'),
     'C19': dict(traits=['ZeroizeOnDrop'], theorems=['DW.C19_validated', 'DW.C19_effect_zod', 'DW.C19_effect_delegating', 'DW.C19_impls'],
